@@ -234,7 +234,7 @@ def run(pid, tier, seed):
     camp.extra["exhaustive_subdomains"] = sizes
     camp.extra["exhaustive"] = False
     camp.extra["exhaustive_note"] = "the listed sub-domains were enumerated completely; the soup part is sampled"
-    return core.finish(pid, tier, seed, camp, RULE[pid], t0, assumptions=[
+    return core.finish(pid, tier, seed, camp, RULE[pid], t0, replay_fn=replay, assumptions=[
         "visual width model: one column per non-tab character, tab stops every 4 columns (ASCII)",
         "lexer exceptions are counted and left to C05",
     ])
